@@ -711,3 +711,38 @@ Example C05_view_blocks_rebuild_nonvacuous :
        Some [(1%Z, [(RW.nId, EM.VInt 1); (RW.nV, RW.vt 97)]); (2%Z, [(RW.nId, EM.VInt 2); (RW.nV, RW.vt 113)])]) /\
     VP.cnt RW.nT (EM.db_tables RW.w_db) <= 1.
 Proof. exact VP.w_view_run. Qed.
+
+(** 25. RowsModel ~ EngineModel on the row component (round 5, goal 1).  The two abstract engines have different value
+    domains; under any rendering [tok] of the shared engine's non-NULL values, [RF.absv] maps them to RowsModel's
+    (NULL | token).  The cell INSERT ... SELECT computes for a stored column is the same in both: RowsModel.col_value
+    (identity conversion) on the abstracted old row, with the abstracted pairing, is the abstraction of the cell
+    [EM.new_row] stores -- for every table, row, pairing (positional in RowsModel, first match of the zipped lists in
+    EngineModel), provided the source columns exist (what INSERT checks) and the default of the RowsModel column is the
+    abstraction of the engine's.  Not covered: generated columns (RowsModel materialises them, EngineModel stores
+    stored columns only), affinity conversion ([conv] is the identity here), the catalogue side. *)
+From Atlas Require Sqlite.RowsRefine.
+Module RF := Atlas.Sqlite.RowsRefine.
+Theorem C05_rows_engine_refinement :
+  forall (tok : EM.value -> str) (old : etable) (to : table) (r : EM.row) (nx : Z) (rc : rcol) (col : column)
+         (tc : list str) (ex : list PM.sexpr),
+    NoDup (map c_name (t_cols to)) -> In col (t_cols to) -> c_gen col = None ->
+    length tc = length ex ->
+    rc_name rc = c_name col ->
+    rc_defval rc = RF.absv tok (EM.default_of col) ->
+    (forall e, In e ex -> exists c0 p0, find_rcol (EM.sexpr_col e) (et_cols old) = Some c0 /\
+                                        find (fun p => str_eqb (fst p) (EM.sexpr_col e)) (snd r) = Some p0) ->
+    col_value RF.idconv old (RF.absrow tok r) rc tc (map (RF.abs_expr tok) ex) =
+      EOk (RF.absv tok (EM.row_get (EM.new_row to tc ex r nx) (c_name col))).
+Proof. exact RF.new_row_refines. Qed.
+Print Assumptions C05_rows_engine_refinement.
+
+Example C05_rows_engine_refinement_nonvacuous :
+  let tok := fun v : EM.value => match v with EM.VText b => b | _ => [] end in
+  let old := mkEtable RW.nT [mkRcol RW.nV RW.tyText false DNone VNull false false false false] [] [] in
+  let col := RW.cV false (Some (DLit RW.dq)) in
+  col_value RF.idconv old (RF.absrow tok (1%Z, [(RW.nV, EM.VNull)]))
+            (mkRcol RW.nV RW.tyText true (DLiteral false) (RF.absv tok (EM.default_of col)) false false false false)
+            [RW.nV] (map (RF.abs_expr tok) [PM.XIfNull RW.nV [39;113;39]%N])
+  = EOk (VVal RW.dq) /\
+  EM.row_get (EM.new_row (PM.x_t RW.t_new) [RW.nV] [PM.XIfNull RW.nV [39;113;39]%N] (1%Z, [(RW.nV, EM.VNull)]) 5%Z) RW.nV = EM.VText RW.dq.
+Proof. split; vm_compute; reflexivity. Qed.
